@@ -4,11 +4,19 @@
   - gen_random: seeded histories with wider parameters than the model holds (several keys, shared Counts, re-entrant
     Rcounts, value frames, the concurrent-check flag, text and binary, via leader and via follower, value registers)
   - directed: the corner cases read off transparency.go (pipelined requests + upstream cut, first short text command,
-    leader frozen, leader gone, CONFIG-state member, promotion between two requests of a connection, leader killed)."""
+    leader frozen, leader gone, CONFIG-state member, promotion between two requests of a connection, leader killed)
+  - expiry histories (from_behaviour with `expire` steps of the model, gen_expiry, directed_expiry): a hold taken through a
+    non-leader EXPIRES on the leader while the client connection stays open - the leader pushes an unsolicited EXPRIED frame
+    with an already answered request id down the upstream link - and the connection goes on with further requests: short
+    expiries in seconds and milliseconds, LOCK and the SET / SETEX / PSETEX style text commands (lock + value requests
+    underneath), re-locks and updates (the hold's command - and so the notice's request id and route - changes), waiters
+    granted at the expiry whose own hold expires next, waits that time out on the leader, the upstream cut / the client
+    connection closed (pooled upstream re-used by another text connection) before the expiry."""
 import random, struct
 
 ZERO_AOF = 0x0100       # EXPRIED_FLAG_ZEOR_AOF_TIME: the hold is logged (and replicated) at once
 TF_MS = 0x0400
+EF_MS = 0x0400          # EXPRIED_FLAG_MILLISECOND_TIME
 F_SHOW, F_UPDATE, F_CONC = 0x01, 0x02, 0x08
 UF_FIRST, UF_CANCEL = 0x01, 0x02
 
@@ -23,6 +31,20 @@ def lockw(key, lid, ms=300, **kw):
 
 def unlock(key, lid, rc=0, long=False, flag=0):
     return {"cmd": "U", "key": key, "lid": lid, "to": 0, "tf": 0, "ex": 0, "ef": 0, "cnt": 0, "rc": rc, "flag": flag, "data": None, "long": long}
+
+def lock_ms(key, lid, ms, **kw):
+    """LOCK whose hold expires after `ms` milliseconds (logged at once like the others)."""
+    return lock(key, lid, ex=ms, ef=ZERO_AOF | EF_MS, **kw)
+
+def lock_s(key, lid, sec, **kw):
+    return lock(key, lid, ex=sec, ef=ZERO_AOF, **kw)
+
+def sset(key, val, ex=0, ms=False, form="set"):
+    """text SET key val [EX s | PX ms] / SETEX / PSETEX: a lock + value request (LockId = key) whose hold carries the value."""
+    return {"cmd": "S", "key": key, "val": val, "ex": ex, "ef": EF_MS if (ms and ex) else 0, "form": form}
+
+def wait_notice(n, max_ms=3800, settle_ms=40):
+    return {"op": "wait_notice", "n": n, "max_ms": max_ms, "settle_ms": settle_ms}
 
 def send(c, q, pending=False):
     return {"op": "send", "c": c, "q": q, "expect_pending": pending}
@@ -39,8 +61,31 @@ def from_behaviour(seed, idx, hist, keybase):
     holder = None           # driver-side guess only used for the expect_pending hint (never for judging)
     waited = set()
     promote = False
-    for h in hist:
+    # `expire` steps of the model: the hold of LockId h.lid (command = request h.n, taken on connection h.c) expires on the
+    # deciding engine.  Real holds expire on the leader's clock: every lock request of that LockId sent before the step gets a
+    # short expiry (milliseconds, or one second), everybody else a long one, and the step waits for the leader's notice.
+    exp_at = [i for i, h in enumerate(hist) if h["op"] == "expire"]
+    def short_expiry(i, lid):
+        nxt = [j for j in exp_at if j > i]
+        if not nxt or hist[nxt[0]]["lid"] != lid:
+            return None
+        between = sum(1 for x in hist[i:nxt[0]] if x["op"] == "send")
+        return between
+    xrng = random.Random(f"fwdbehx/{seed}/{idx}")       # (a generator of its own: histories without an expiry stay what they were)
+    sec_unit = xrng.random() < 0.2
+    nnote = 0
+    for hi, h in enumerate(hist):
         op = h["op"]
+        if op == "expire":
+            cd = conns.get(h["c"])
+            visible = cd is not None and (cd["node"] == "N" or cd["proto"] == "bin") and not promote
+            if visible:
+                nnote += 1
+                steps.append(wait_notice(nnote, max_ms=3600 if sec_unit else 2200))
+            else:
+                steps.append({"op": "wait", "ms": 3200 if sec_unit else 900})
+            holder = None
+            continue
         if op == "send":
             c = h["c"]
             if c not in conns:
@@ -52,6 +97,11 @@ def from_behaviour(seed, idx, hist, keybase):
                     conns[c] = {"node": "L", "proto": rng.choice(["bin", "text"])}
             lid = lidbase + h["lid"]
             ef = ZERO_AOF if rng.random() < 0.8 else 0
+            sh = short_expiry(hi, h["lid"]) if h["rop"] != "unlock" else None
+            exkw = {}
+            if sh is not None:
+                exkw = {"ex": 1, "ef": ZERO_AOF} if sec_unit else {"ex": min(1500, 150 + 70 * sh + xrng.randrange(0, 60)), "ef": ZERO_AOF | EF_MS}
+                ef = exkw["ef"]
             if h["rop"] == "unlock":
                 q = unlock(key, lid, rc=2)          # one level, as in the model
                 if holder == lid:
@@ -59,38 +109,38 @@ def from_behaviour(seed, idx, hist, keybase):
                 steps.append(send(c, q))
             elif h["rop"] == "lockr":
                 # no wait, Rcount 2: the holder's re-lock is granted by the leader
-                q = lock(key, lid, rc=2, ef=ef, ex=rng.choice([600, 1800]))
+                q = lock(key, lid, rc=2, ef=ef, ex=exkw.get("ex", rng.choice([600, 1800])))
                 if holder is None:
                     holder = lid
                 steps.append(send(c, q))
             elif h["rop"] == "lockcw" and lid not in waited:
                 # concurrent-check flag WITH a wait time: never the follower's fast path
                 waited.add(lid)
-                q = lockw(key, lid, ms=rng.choice([150, 300]), ef=ef, flag=F_CONC)
+                q = lockw(key, lid, ms=rng.choice([150, 300]), ef=ef, flag=F_CONC, **({"ex": exkw["ex"]} if exkw else {}))
                 pend = holder is not None
                 if holder is None:
                     holder = lid
                 steps.append(send(c, q, pending=pend))
             elif h["rop"] in ("lockw", "lockcw") and lid in waited:
                 # (two requests QUEUED with one LockId are both granted - known finding A12, a C02 matter: not generated)
-                q = lock(key, lid, ef=ef)
+                q = lock(key, lid, ef=ef, **({"ex": exkw["ex"]} if exkw else {}))
                 if holder is None:
                     holder = lid
                 steps.append(send(c, q))
             elif h["rop"] == "lockw":
                 waited.add(lid)
-                q = lockw(key, lid, ms=rng.choice([150, 300]), ef=ef)
+                q = lockw(key, lid, ms=rng.choice([150, 300]), ef=ef, **({"ex": exkw["ex"]} if exkw else {}))
                 pend = holder is not None and holder != lid
                 if holder is None:
                     holder = lid
                 steps.append(send(c, q, pending=pend))
             elif h["rop"] == "lockc":
-                q = lock(key, lid, flag=F_CONC, ef=ef)
+                q = lock(key, lid, flag=F_CONC, ef=ef, **({"ex": exkw["ex"]} if exkw else {}))
                 if holder is None:
                     holder = lid
                 steps.append(send(c, q))
             else:
-                q = lock(key, lid, ef=ef)
+                q = lock(key, lid, ef=ef, **({"ex": exkw["ex"]} if exkw else {}))
                 if holder is None:
                     holder = lid
                 steps.append(send(c, q))
@@ -105,7 +155,10 @@ def from_behaviour(seed, idx, hist, keybase):
             promote = True
         elif op == "demote":
             break       # not provokable on the real server (SLAVEOF host port on a leader dead-locks in updateState)
-    return {"name": f"beh-{seed}-{idx}", "idx": idx, "kind": "promote" if promote else "beh", "keys": [key], "vkeys": [], "conns": conns, "steps": steps,
+    if exp_at:
+        # nothing of this history may expire into the next one: the short holds are gone before the snapshot
+        steps.append({"op": "wait", "ms": 60})
+    return {"name": f"beh-{seed}-{idx}", "idx": idx, "kind": "promote" if promote else ("exp" if exp_at else "beh"), "keys": [key], "vkeys": [], "conns": conns, "steps": steps,
             "src": "tlc", "hist": hist}
 
 # --------------------------------------------------------------------------------------------- seeded random
@@ -356,3 +409,226 @@ def replset_seq(seed, idx, keybase):
              send("a1", unlock(k + 3, l + 1)), send("a3", unlock(k + 4, l + 5))]
     return {"name": "dir-replset-leader-steps-down", "idx": idx, "kind": "replset", "keys": [k, k + 1, k + 2, k + 3, k + 4], "vkeys": [],
             "conns": {"a1": A, "a2": AT, "a3": dict(A), "b1": B, "c1": CT}, "steps": steps, "src": "directed"}
+
+# --------------------------------------------------------------------------------------------- expiry histories
+
+def _visible(conns, c):
+    """Is the leader's expiry notice for a hold taken on connection c seen by the driver (upstream link of N / binary client of L)?"""
+    return conns[c]["node"] == "N" or conns[c]["proto"] == "bin"
+
+def gen_expiry(seed, idx, keybase):
+    """Seeded histories around EXPIRING holds: one to three holds with a short expiry (milliseconds, or one second) are taken
+    through the non-leader (text and binary; LOCK, re-lock, update from another connection, SET / SETEX / PSETEX, a waiter that
+    is granted at the expiry and whose own hold expires next) and on the leader; sometimes the upstream link is cut or the client
+    connection closed before the expiry; the history waits for the leader's notices and then goes on with further requests on the
+    SAME connections (new keys, the expired key again, unlocks of the expired LockId, value commands)."""
+    rng = random.Random(f"fwdexp/{seed}/{idx}")
+    l = keybase * 8
+    B = {"node": "N", "proto": "bin"}; T = {"node": "N", "proto": "text"}
+    conns = {"b1": dict(B), "b2": dict(B), "t1": dict(T), "t2": dict(T), "t3": dict(T), "d1": {"node": "L", "proto": "bin"}, "d2": {"node": "L", "proto": "text"}}
+    nkey = [0]; nval = [0]; nlid = [0]
+    keys, vkeys = [], []
+    def newkey():
+        k = keybase + (nkey[0] % 48); nkey[0] += 1
+        if k not in keys:
+            keys.append(k)
+        return k
+    def newval():
+        k = keybase + 48 + (nval[0] % 16); nval[0] += 1          # (the caller reserves 64 keys: 48 lock keys, 16 value keys)
+        if k in vkeys:
+            return k
+        vkeys.append(k)
+        return k
+    def newlid():
+        nlid[0] += 1
+        return l + nlid[0]
+    steps = []
+    nnote = 0
+    gone_text = set()           # text connections that were closed and reopened (fresh server-side state)
+    for rnd in range(rng.choice([1, 1, 2])):
+        sec = rng.random() < 0.25
+        def E():
+            return 1 if sec else rng.randrange(110, 460)
+        def mk(key, lid, ex, **kw):
+            return lock_s(key, lid, ex, **kw) if sec else lock_ms(key, lid, ex, **kw)
+        nh = rng.choice([1, 2, 2, 3])
+        pool = ["t1", "t2", "b1", "b2", "d1"] + (["d2"] if rng.random() < 0.15 else [])
+        via = []
+        while len(via) < nh:
+            c = rng.choice(["t1", "t2", "t1", "t2", "b1", "b2"] if rng.random() < 0.85 else pool)
+            if c not in via:
+                via.append(c)
+        expired = {}            # conn -> list of (key, lid) whose holds are to expire (hints for the follow-up requests)
+        blocked = set()
+        maxe = 0
+        for c in via:
+            text = conns[c]["proto"] == "text"
+            kind = rng.choice((["lock", "lock", "set", "setex", "relock", "update", "waiter"] if text else ["lock", "lock", "lock", "relock", "update", "waiter"]))
+            ex = E(); maxe = max(maxe, ex)
+            if kind == "lock":
+                k, lid = newkey(), newlid()
+                steps.append(send(c, mk(k, lid, ex, data=(data_set(b"x%d" % rng.randrange(99)) if rng.random() < 0.2 else None))))
+                expired.setdefault(c, []).append((k, lid)); nnote += _visible(conns, c)
+            elif kind in ("set", "setex"):
+                k = newval()
+                steps.append(send(c, sset(k, "v%d" % rng.randrange(1000), ex=ex, ms=not sec, form=kind)))
+                if rng.random() < 0.3:
+                    # a second write of the same key: an update of the held lock - ITS request id travels in the notice
+                    ex = E() + 7; maxe = max(maxe, ex)
+                    steps.append(send(c, sset(k, "w%d" % rng.randrange(1000), ex=ex, ms=not sec, form=rng.choice(["set", "setex"]))))
+                expired.setdefault(c, []).append((k, k)); nnote += _visible(conns, c)
+            elif kind == "relock":
+                k, lid = newkey(), newlid()
+                steps.append(send(c, mk(k, lid, ex, rc=2)))
+                steps.append(send(c, mk(k, lid, ex, rc=2)))            # the second grant becomes the hold's command
+                expired.setdefault(c, []).append((k, lid)); nnote += _visible(conns, c)
+            elif kind == "update":
+                # the hold is taken on c and UPDATED from o (same LockId, other expiry): the notice carries o's request id and
+                # travels down o's route
+                k, lid = newkey(), newlid()
+                o = rng.choice([x for x in ["t1", "t2", "b1", "b2"] if x not in blocked])
+                steps.append(send(c, mk(k, lid, (2 if sec else ex + 300))))
+                steps.append(send(o, mk(k, lid, ex, flag=F_UPDATE)))
+                expired.setdefault(o, []).append((k, lid)); nnote += _visible(conns, o)
+            else:
+                # a waiter behind a short hold: granted at the expiry (the holder's route gets the notice, the waiter's route the
+                # grant), then the waiter's own short hold expires
+                k, lid, lid2 = newkey(), newlid(), newlid()
+                h = rng.choice([x for x in ["d1", "b1", "b2", "t1", "t2"] if x != c and x not in blocked])
+                ex2 = E(); maxe = max(maxe, ex + ex2)
+                steps.append(send(h, mk(k, lid, ex)))
+                steps.append(send(c, lockw(k, lid2, ms=2500, ex=ex2, ef=ZERO_AOF | (0 if sec else EF_MS)), pending=True))
+                blocked.add(c)
+                expired.setdefault(h, []).append((k, lid)); expired.setdefault(c, []).append((k, lid2))
+                nnote += _visible(conns, h) + _visible(conns, c)
+        # requests of OTHER connections meanwhile
+        for _ in range(rng.choice([0, 0, 1, 2])):
+            o = rng.choice([x for x in ["b1", "b2", "t1", "t2", "d1", "d2"] if x not in via and x not in blocked] or ["d1"])
+            steps.append(send(o, lock(newkey(), newlid())))
+        # a disturbance before the expiry
+        r = rng.random()
+        ncand = [c for c in expired if conns[c]["node"] == "N" and c not in blocked]
+        if r < 0.12 and ncand:
+            c = rng.choice(ncand)
+            steps.append({"op": "cut", "c": c})
+            nnote -= len(expired[c])            # the notice has no route any more
+        elif r < 0.24 and [c for c in ncand if conns[c]["proto"] == "text"]:
+            # the text connection is closed: its pooled upstream link goes to the next text connection that needs one - the
+            # notice of the old connection's hold arrives on a link that now serves somebody else
+            c = rng.choice([c for c in ncand if conns[c]["proto"] == "text"])
+            steps.append({"op": "reconnect", "c": c})
+            o = "t3"
+            steps.append(send(o, lock(newkey(), newlid())))
+            expired.setdefault(o, [])
+            gone_text.add(c)
+        steps.append(wait_notice(max(nnote, 0), max_ms=(3900 if sec else maxe + 1600)))
+        # the connections go on
+        order = list(expired)
+        rng.shuffle(order)
+        for _ in range(rng.randrange(2, 5)):
+            for c in order:
+                text = conns[c]["proto"] == "text"
+                x = rng.random()
+                if expired[c] and x < 0.25:
+                    k, lid = rng.choice(expired[c])
+                    if k in vkeys:
+                        steps.append(send(c, rng.choice([{"cmd": "G", "key": k}, {"cmd": "D", "key": k}, sset(k, "n%d" % rng.randrange(100))])) if text else send(c, lock(newkey(), newlid())))
+                    else:
+                        steps.append(send(c, rng.choice([unlock(k, lid), lock(k, lid), lock(k, newlid())])))
+                elif text and x < 0.40:
+                    k = rng.choice(vkeys) if vkeys and rng.random() < 0.5 else newval()
+                    steps.append(send(c, rng.choice([sset(k, "p%d" % rng.randrange(100)), {"cmd": "G", "key": k}, {"cmd": "D", "key": k}])))
+                elif x < 0.75:
+                    k, lid = newkey(), newlid()
+                    steps.append(send(c, lock(k, lid, cnt=rng.choice([0, 0, 1]), rc=rng.choice([0, 0, 1]))))
+                    if rng.random() < 0.6:
+                        steps.append(send(c, unlock(k, lid)))
+                        if rng.random() < 0.5:
+                            steps.append(send(c, lock(k, lid)))
+                else:
+                    k, lid = newkey(), newlid()
+                    steps.append(send(c, lock(k, lid, flag=rng.choice([0, F_SHOW, F_UPDATE, F_CONC]))))
+    return {"name": f"exp-{seed}-{idx}", "idx": idx, "kind": "exp", "keys": keys, "vkeys": vkeys, "conns": conns, "steps": steps, "src": "seeded-expiry"}
+
+def directed_expiry(seed, idx0, keybase0, stride):
+    """Directed expiry histories (plain followers); each takes its own key range."""
+    out = []
+    def nxt(name, keys, conns, steps, vkeys=()):
+        i = len(out)
+        out.append({"name": f"dir-{name}", "idx": idx0 + i, "kind": "exp", "keys": keys, "vkeys": list(vkeys), "conns": conns, "steps": steps, "src": "directed"})
+    def kb():
+        return keybase0 + len(out) * stride
+    B = {"node": "N", "proto": "bin"}; T = {"node": "N", "proto": "text"}; LB = {"node": "L", "proto": "bin"}; LT = {"node": "L", "proto": "text"}
+
+    # 1. the same script on every route: a hold with a one-second expiry is left to expire, then LOCK / UNLOCK / LOCK of another key
+    #    (on the text routes the UNLOCK names no LockId: the connection's remembered one is used)
+    k = kb(); l = k * 8
+    steps, n = [], 0
+    for j, c in enumerate(["d2", "t1", "b1", "d1"]):
+        steps.append(send(c, lock_s(k + j, l + 1 + j, 1)))
+    steps.append(wait_notice(3, max_ms=3900, settle_ms=60))
+    steps.append({"op": "wait", "ms": 150})
+    for j, c in enumerate(["d2", "t1", "b1", "d1"]):
+        kk = k + 4 + j
+        steps += [send(c, lock(kk, l + 9 + j)), send(c, unlock(kk, l + 9 + j)), send(c, lock(kk, l + 9 + j)), send(c, unlock(k + j, l + 1 + j))]
+    nxt("expiry-seconds-every-route", list(range(k, k + 8)), {"d1": LB, "d2": LT, "b1": B, "t1": T}, steps)
+
+    # 2. milliseconds, twice on each connection (the second notice of a connection follows answered requests of its own)
+    k = kb(); l = k * 8
+    steps = []
+    for j, c in enumerate(["t1", "b1", "t2"]):
+        steps.append(send(c, lock_ms(k + j, l + 1 + j, 180 + 40 * j)))
+    steps.append(wait_notice(3, max_ms=2500))
+    for j, c in enumerate(["t1", "b1", "t2"]):
+        steps += [send(c, lock(k + 3 + j, l + 5 + j)), send(c, lock_ms(k + j, l + 1 + j, 200)), send(c, unlock(k + 3 + j, l + 5 + j))]
+    steps.append(wait_notice(6, max_ms=2500))
+    for j, c in enumerate(["t1", "b1", "t2"]):
+        steps += [send(c, lock(k + 3 + j, l + 8 + j)), send(c, lock(k + j, l + 1 + j)), send(c, unlock(k + j, l + 1 + j)), send(c, unlock(k + 3 + j, l + 8 + j))]
+    nxt("expiry-milliseconds-twice", list(range(k, k + 6)), {"t1": T, "t2": dict(T), "b1": B}, steps)
+
+    # 3. value commands with an expiry through a non-leader and on the leader: SET EX / SET PX / SETEX / PSETEX, then GET / SET / DEL
+    k = kb(); l = k * 8
+    steps = [send("t1", sset(k + 10, "a", ex=1)), send("t2", sset(k + 11, "b", ex=250, ms=True)),
+             send("t3", sset(k + 12, "c", ex=1, form="setex")), send("t4", sset(k + 13, "d", ex=300, ms=True, form="setex")),
+             send("d2", sset(k + 14, "e", ex=250, ms=True)),
+             wait_notice(4, max_ms=3900, settle_ms=60)]
+    for j, c in enumerate(["t1", "t2", "t3", "t4", "d2"]):
+        steps += [send(c, {"cmd": "G", "key": k + 10 + j}), send(c, sset(k + 10 + j, "n%d" % j)), send(c, {"cmd": "G", "key": k + 10 + j}),
+                  send(c, lock(k + j, l + 1 + j)), send(c, {"cmd": "D", "key": k + 10 + j}), send(c, unlock(k + j, l + 1 + j))]
+    nxt("expiry-value-commands", list(range(k, k + 5)), {"t1": T, "t2": dict(T), "t3": dict(T), "t4": dict(T), "d2": LT}, steps, vkeys=list(range(k + 10, k + 15)))
+
+    # 4. a waiter granted at the expiry; its own hold expires next; a wait that times out on the leader
+    k = kb(); l = k * 8
+    steps = [send("b1", lock_ms(k, l + 1, 250)), send("t1", lockw(k, l + 2, ms=2500, ex=300, ef=ZERO_AOF | EF_MS), pending=True),
+             send("d1", lock(k + 1, l + 3)), send("t2", lockw(k + 1, l + 4, ms=200), pending=True), send("b2", lockw(k + 1, l + 5, ms=260), pending=True),
+             wait_notice(2, max_ms=3000),
+             send("t1", lock(k + 2, l + 2)), send("t1", unlock(k + 2, l + 2)), send("t1", lock(k, l + 2)),
+             send("b1", lock(k + 2, l + 1)), send("b1", unlock(k, l + 1)),
+             send("t2", lock(k + 3, l + 4)), send("t2", unlock(k + 3, l + 4)), send("b2", lock(k + 3, l + 5)), send("t2", lock(k + 1, l + 4)),
+             send("d1", unlock(k + 1, l + 3))]
+    nxt("expiry-waiter-granted", [k, k + 1, k + 2, k + 3], {"b1": B, "b2": dict(B), "t1": T, "t2": dict(T), "d1": LB}, steps)
+
+    # 5. the hold's command changes: re-lock within Rcount, update from another connection (the notice follows the LAST command)
+    k = kb(); l = k * 8
+    steps = [send("t1", lock_ms(k, l + 1, 900, rc=2)), send("t1", lock_ms(k, l + 1, 260, rc=2)),
+             send("t2", lock_ms(k + 1, l + 2, 900)), send("b1", lock_ms(k + 1, l + 2, 240, flag=F_UPDATE)),
+             send("b2", lock_ms(k + 2, l + 3, 900)), send("t3", lock_ms(k + 2, l + 3, 280, flag=F_UPDATE)),
+             wait_notice(3, max_ms=3000, settle_ms=60),
+             send("t1", lock(k + 3, l + 1)), send("t1", unlock(k + 3, l + 1)), send("t2", lock(k + 3, l + 2)), send("t2", unlock(k + 3, l + 2)),
+             send("t3", lock(k + 3, l + 3)), send("t3", unlock(k + 3, l + 3)), send("b1", lock(k + 3, l + 4)), send("b2", lock(k + 3, l + 5)),
+             send("t1", lock(k, l + 1)), send("t3", lock(k + 2, l + 9))]
+    nxt("expiry-relock-and-update", [k, k + 1, k + 2, k + 3], {"t1": T, "t2": dict(T), "t3": dict(T), "b1": B, "b2": dict(B)}, steps)
+
+    # 6. no route for the notice: upstream cut before the expiry; client connection closed (its pooled upstream link is taken over
+    #    by another text connection before the notice comes)
+    k = kb(); l = k * 8
+    steps = [send("t1", lock_ms(k, l + 1, 300)), send("b1", lock_ms(k + 1, l + 2, 300)), send("t2", lock_ms(k + 2, l + 3, 320)),
+             {"op": "cut", "c": "t1"}, {"op": "cut", "c": "b1"}, {"op": "reconnect", "c": "t2"},
+             send("t3", lock(k + 3, l + 4)),
+             wait_notice(1, max_ms=1500, settle_ms=60),
+             send("t3", unlock(k + 3, l + 4)), send("t3", lock(k + 2, l + 4)),
+             send("t1", lock(k + 4, l + 1)), send("t1", unlock(k + 4, l + 1)), send("t1", lock(k, l + 1)),
+             send("b1", lock(k + 4, l + 2)), send("b1", lock(k + 1, l + 2)),
+             send("t2", lock(k + 4, l + 3)), send("t2", lock(k + 5, l + 3)), send("t2", unlock(k + 5, l + 3))]
+    nxt("expiry-without-route", [k, k + 1, k + 2, k + 3, k + 4, k + 5], {"t1": T, "t2": dict(T), "t3": dict(T), "b1": B}, steps)
+    return out
